@@ -203,6 +203,23 @@ def _shadow_validate(mod, cparams, sctx, S, res):
     except Exception as e:
         res['shadow_skipped'] += 1
         return
+    if cctx.failures:
+        # a concrete *fact* (memory sharing, dtypes, object identity: things the engine's arrays do not exhibit) that
+        # holds for the symbolic run fails in the concrete run of the real code at a witness of this path: that is a
+        # failing run of the real code, reported like any other candidate (fresh-process replay follows).  Numeric
+        # assertions are not taken from here (they are the solver's business, and on paths with undefined arithmetic
+        # the concrete values are NaN by the definedness rule).
+        seen = {c['label'] for c in res['candidates']}
+        for label, detail in cctx.failures:
+            if not str(detail).startswith('fact fails') or ENG.poison:
+                continue
+            if label not in seen and len(res['candidates']) < 40:
+                seen.add(label)
+                res['candidates'].append(dict(label=label, kind='fact', values=values, funcs=funcs,
+                                              detail='concrete run: ' + str(detail)[:200], tb='', reproduced=True,
+                                              conc_detail='%s: %s' % (label, str(detail)[:200])))
+        res['shadow_skipped'] += 1
+        return
     if len(cctx.records) != len(sctx.records) or any(a[0] != b[0] for a, b in zip(cctx.records, sctx.records)):
         res['shadow_skipped'] += 1
         return
